@@ -330,7 +330,7 @@ Proof.
   - unfold do_putcopy in H. apply with_attr_ok in H. destruct H as (a & Ea & H).
     apply with_attr_ok in H. destruct H as (ra & Era & H).
     cbv zeta in H. set (par := match a_par ra with Some p => if (p =? s)%N then None else Some p | None => None end) in H. clearbody par.
-    assert (H1 : ranges_ok (upd_attr st s (mkattr (a_before ra) (a_after ra) (a_orig ra) (a_index ra) par [] false false))).
+    assert (H1 : ranges_ok (upd_attr st s (mkattr (a_before ra) (a_after ra) (a_orig ra) (a_index a) par [] false false))).
     { apply ranges_upd; [exact Hr|]. destruct Hr as [_ Hr]. exact (Hr ref ra Era). }
     destruct par as [p|].
     + apply with_attr_ok in H. destruct H as (pa & Epa & H). inversion H; subst. split; [|reflexivity].
